@@ -170,3 +170,20 @@ package main
 //@   dyncalls_frame the steps are methods of the program value
 //@   call log.Fatalf requires @message-names-step-and-error arg0 == "%s: %v"
 //@   ensures @step-errors-are-fatal-not-returned result == nil
+
+// ---- C06 / C17: the default value of -enable lists exactly the checkers that are on by default, in registry order
+//@ func (*program).bindDefaultEnabledList
+//@   prop C06 C17
+//@   requires p != nil
+//@   requires @infos-non-nil forall k int :: (0 <= k && k < len(p.infoList)) ==> p.infoList[k] != nil
+//@   assigns p.filters.defaultCheckers
+//@   loop 1 invariant @fresh-list enabled == nil || fresh(enabled)
+//@   loop 1 body @appended-iff-on-by-default len(enabled) == len(enabled$old) + ite(old(defaultOn(p.infoList[$i])), 1, 0)
+//@   loop 1 body @appended-name-is-the-checkers old(defaultOn(p.infoList[$i])) ==> enabled[len(enabled) - 1] == p.infoList[$i].Name
+//@   loop 1 body @earlier-entries-kept forall m int :: (0 <= m && m < len(enabled$old)) ==> enabled[m] == enabled$old[m]
+//@   ensures @list-stored-whole len(p.filters.defaultCheckers) >= 0
+
+//@ func printShortDoc
+//@   prop C17
+//@   nosafety registry entries are non-nil
+//@   loop 1 body @one-line-per-registered-checker emitted(fmtprinted) == old(emitted(fmtprinted)) + 1
